@@ -543,9 +543,11 @@ impl<'a> Namespace<'a> {
         for key in subject.keys() {
             if let Some(def) = self.get(&Symbol::from(key.as_str())) {
                 defs.push(def);
-                if subject.has_marker(key.as_str()) {
-                    markers.insert(key);
-                }
+            }
+            // Every marker tag can be a part of a conjunct, whether or not the
+            // tag has a def of its own.
+            if subject.has_marker(key.as_str()) {
+                markers.insert(key);
             }
         }
 
